@@ -91,6 +91,14 @@ class ListModel:
                         lo, hi = (C(0), dom[2][0]) if len(dom[2]) == 1 else dom[2]
                         self.ranges.append((lo, hi, b, val))
                         continue
+                    if idx == b and dom[0] == 'call' and dom[1] == S('range') and len(dom[2]) == 3 and dom[2][2] == C(-1):
+                        # descending range(a, b, -1) visits a, a-1, ..., b+1: the index set of range(b + 1, a + 1)
+                        lo = simp(BIN('Add', dom[2][1], C(1)))
+                        hi = simp(BIN('Add', dom[2][0], C(1)))
+                        if hi == BIN('Add', BIN('Sub', n, C(1)), C(1)):
+                            hi = n
+                        self.ranges.append((lo, hi, b, val))
+                        continue
                 raise Unknown('list update %s[%s] in a loop' % (op, show(idx)))
             return
         if t[0] == 'upd':
@@ -102,6 +110,14 @@ class ListModel:
             if op == 'setslice':
                 lo, hi = idx[1]
                 v = val
+                # vectorised right-hand side over np.arange(lo, n): element x of the slice is the expression at arange := x
+                ar = [x for x in walk(v) if x[0] == 'call' and show(x[1]) in ('np.arange', 'numpy.arange') and len(x[2]) == 2]
+                if ar and hi == NONE and ar[0][2][0] == lo and all(a == ar[0] for a in ar):
+                    b = ('bvar', -17, 'x', CALL(S('range'), [ar[0][2][0], ar[0][2][1]]))
+                    def rw(x, a=ar[0], b=b):
+                        return b if x == a else None
+                    self.ranges.append((ar[0][2][0], ar[0][2][1], b, subst(v, rw)))
+                    return
                 if v[0] == 'comp' and len(v[1]) == 1 and v[1][0][1] == TRUE:
                     b = v[1][0][0]
                     dom = b[3]
@@ -115,6 +131,10 @@ class ListModel:
             if lst[0] == 'list' and len(lst[1]) == 1:
                 self.length, self.default = cnt, lst[1][0]
                 return
+        if t[0] == 'call' and show(t[1]) in ('np.empty', 'np.zeros', 'np.ones', 'numpy.empty', 'numpy.zeros', 'numpy.ones') and len(t[2]) >= 1:
+            self.length = t[2][0]
+            self.default = {'empty': None, 'zeros': C(0.0), 'ones': C(1.0)}[show(t[1]).split('.')[-1]]
+            return
         if t[0] == 'cat':
             # [first] ++ [f(x) for x in range(1, n)]
             pos = 0
@@ -279,11 +299,30 @@ def check_divisions(rep, f, effs, names, n_t, rule='C17.R3'):
         n1 += 1
         safe = False
         why = []
+        # vectorised over np.arange(lo, n) with lo >= 1: an empty array when n == 1, nothing is divided
+        def empty_at_one(x):
+            if x[0] == 'call' and show(x[1]) in ('np.arange', 'numpy.arange', 'range') and len(x[2]) == 2 and x[2][1] == n_t and x[2][0][0] == 'const' and x[2][0][1] >= 1:
+                return True
+            return False
+        if contains(e.num, empty_at_one):
+            safe = True
         for c, br in ctx:
             if c.kind == 'for':
                 dom = c.binder[3]
                 if dom[0] == 'call' and dom[1] == S('range') and len(dom[2]) == 2 and dom[2][1] == n_t and dom[2][0][0] == 'const' and dom[2][0][1] >= 1:
                     safe = True      # executed at least once only if n >= 2
+                elif dom[0] == 'call' and dom[1] == S('range') and len(dom[2]) in (2, 3):
+                    # general range(a, b[, step]): empty when n == 1 ?
+                    try:
+                        a1 = psub_atom(rat(dom[2][0], nm).num, 'n', pconst(1))
+                        b1 = psub_atom(rat(dom[2][1], nm).num, 'n', pconst(1))
+                        st = dom[2][2][1] if len(dom[2]) == 3 and is_num(dom[2][2]) else (1 if len(dom[2]) == 2 else None)
+                        if st is not None and is_pconst(a1) and is_pconst(b1) and rat(dom[2][0], nm).den == pconst(1) and rat(dom[2][1], nm).den == pconst(1):
+                            av, bv = pconstval(a1), pconstval(b1)
+                            if (st > 0 and av >= bv) or (st < 0 and av <= bv):
+                                safe = True      # the loop body does not run at all for a single agent
+                    except Unknown:
+                        pass
             if c.kind == 'if':
                 g = c.cond if br else NOT(c.cond)
                 if g in (CMP('Gt', n_t, C(1)), CMP('GtE', n_t, C(2)), NOT(CMP('Eq', n_t, C(1))), CMP('NotEq', n_t, C(1)), NOT(CMP('LtE', n_t, C(1))), NOT(CMP('Lt', n_t, C(2)))):
